@@ -72,10 +72,15 @@ def _run(v, tier, rng, work):
     open(good_src, "w").write("\tORG\t0x7c00\n\tMOV\tAX,1\nl:\n\tJMP\tl\n\tDB\t1,2,3\n")
     bad_src = os.path.join(work, "bad.nas")
     open(bad_src, "w").write("\tMOV\tAX,1\n\tMOV AX,\n\tDB 1\n")
+    # parse errors raised by a semantic action (the parser returns a tree AND an error): a literal beyond int64
+    bad2_src = os.path.join(work, "bad2.nas")
+    open(bad2_src, "w").write("\tMOV\tAX,1\n\tDD\t9223372036854775808\n\tHLT\n")
+    bad3_src = os.path.join(work, "bad3.nas")
+    open(bad3_src, "w").write("\tMOV\tAX,1\n\tMOV\tAL,[ES:99999999999999999999]\n\tHLT\n")
     os.makedirs(os.path.join(work, "adir"))
     expect_ok = bytes.fromhex(lib.run_cases([{"id": "x", "srcs": [open(good_src).read()]}], "c19", jobs=1)["x"]["calls"][0]["out"])
     # ---- argument vectors of length 0..4 over path kinds
-    srcs = {"ok": good_src, "missing": os.path.join(work, "nope.nas"), "dir": os.path.join(work, "adir"), "bad": bad_src}
+    srcs = {"ok": good_src, "missing": os.path.join(work, "nope.nas"), "dir": os.path.join(work, "adir"), "bad": bad_src, "bad2": bad2_src, "bad3": bad3_src}
     dsts = {"new": os.path.join(work, "out.bin"), "existing": os.path.join(work, "old.bin"), "nodir": os.path.join(work, "no", "such", "out.bin"),
             "isdir": os.path.join(work, "adir")}
     vectors = [[]] + [[srcs[s]] for s in srcs]
@@ -108,7 +113,7 @@ def _run(v, tier, rng, work):
                 v.violation("unreadable source must exit 17 (got %d)" % rc, w)
             if after != before:
                 v.violation("a failing run changed the output file", w)
-        elif skind == "bad":
+        elif skind in ("bad", "bad2", "bad3"):
             import re
             if rc == 0 or not re.search(r"\d+:\d+", so + se):
                 v.violation("parse error must give a non-zero exit and a line:col position", w)
